@@ -2441,6 +2441,12 @@ func (s *Server) serveConnCounted(c net.Conn, countConcurrency bool) error {
 				if err = c.SetReadDeadline(time.Now().Add(d)); err != nil {
 					break
 				}
+			} else if s.HeaderReceived != nil {
+				// The previous request may have had a read timeout of its own
+				// (RequestConfig.ReadTimeout) and nothing else replaces it.
+				if err = c.SetReadDeadline(zeroTime); err != nil {
+					break
+				}
 			}
 		}
 
